@@ -48,22 +48,26 @@ def main():
     t0 = time.time()
     res: dict = {}
 
+    phase = {"now": "startup"}      # until every executor has registered (Bridge.__init__)
+
     def watchdog():
         time.sleep(40)
         if not res:
-            print("RESULT " + json.dumps({"outcome": "hang", "wall": round(time.time() - t0, 2)}), flush=True)
+            print("RESULT " + json.dumps({"outcome": "hang", "wall": round(time.time() - t0, 2), "phase": phase["now"]}), flush=True)
             os._exit(3)
 
     threading.Thread(target=watchdog, daemon=True).start()
     try:
-        st = run(job, Bridge(c, len(hosts)), pre)
+        b = Bridge(c, len(hosts))
+        phase["now"] = "running"
+        st = run(job, b, pre)
         got = {(k.task, k.output): v for k, v in st.outputs.items()}
         want = {tuple(e): expected[tuple(e)] for e in inst.ext}
         res.update(outcome="ok", values_ok=got == want, n_outputs=len(got))
         if got != want:
             res["diff"] = repr({k: (got.get(k), want.get(k)) for k in set(got) | set(want) if got.get(k) != want.get(k)})[:300]
     except BaseException as e:
-        res.update(outcome="error", what=(type(e).__name__ + ":" + str(e))[:200])
+        res.update(outcome="error", what=(type(e).__name__ + ":" + str(e))[:200], phase=phase["now"])
     res["wall"] = round(time.time() - t0, 2)
     for p in ps:
         p.join(timeout=9)
